@@ -46,6 +46,7 @@ func (P *Prog) constValue(pkgPath, name string) (constant.Value, bool) {
 
 func checkC03(r *Result) {
 	P := r.P
+	defer checkLostUpdates(r, "C03")
 	r.Explanation = "Frame, gate and coefficient rules for token supply, decided on the resolved program: (1) the set of call sites that resolve to BankKeeper.MintCoins/BurnCoins (with their constant module-account argument) must equal the documented events; other supply-affecting bank methods have no call site; every mint/burn module has the matching module-account permission; (2) the begin-block mint is gated by minter.Initialized and a non-nil previous block time on every path, the previous-block-time stamp is refreshed on every minting block and never written on a strict subset of non-minting blocks (stale stamp); (3) algebraic normal forms: provision = DailyMintRate*elapsed_ms/86400000, split 3/4 to time_based_rewards and 1/4 to fee_collector with input = sum of outputs, tip burn = 1/50 of the tip with remainder = tip - burn and the amount taken from the tipper = the tip, bridge mint = decoded amount / 10^12 and the withdrawal takes, burns and encodes one value."
 	r.NotDecided = "the bank-module invariant 'sum of balances = supply'; the numeric inflation bound over intervals (follows from the formula plus truncation toward zero; argued, not checked); IBC transfer mint/burn (outside the repository)"
 	r.Assumptions = []string{"x/bank MintCoins/BurnCoins/SendCoins*/InputOutputCoins behave as documented", "consensus block time is monotone"}
